@@ -80,21 +80,25 @@ def location(project, source, position, filename=None, debug=False):
 
     if marked_import:
         head, tail = marked_import
-        if tail is None:
-            name = project.get_nmodule(head, filename)
-        else:
-            if not tail:
-                full = head
-                head, tail = split_pkg(head)
+        try:
+            if tail is None:
+                name = project.get_nmodule(head, filename)
             else:
-                full = join_pkg(head, tail)
+                if not tail:
+                    full = head
+                    head, tail = split_pkg(head)
+                else:
+                    full = join_pkg(head, tail)
 
-            module = project.get_nmodule(head, filename)
-            name = module.get_attr(ctx, tail)
-            if not name:
-                name = project.get_nmodule(full, filename)
+                module = project.get_nmodule(head, filename)
+                name = module.get_attr(ctx, tail)
+                if not name:
+                    name = project.get_nmodule(full, filename)
+        except ImportError:
+            name = None  # the cursor is on a module that cannot be found
 
-        result = ctx.declarations(name, [])
+        if name:
+            result = ctx.declarations(name, [])
     else:
         node = get_marked_name(source.tree) or get_marked_atribute(source.tree)
         if node:
